@@ -97,6 +97,9 @@ def ex_history(R):
         x = R.random()
         if x < 0.55 or not steps:
             cmd = gen.ex_modify(R, max(n, 1), 'mixed')
+            if cmd.count(b'\n') == 1 and R.random() < 0.2:
+                # a command line that edits and then fails: still one command, hence one undo step
+                cmd = cmd[:-1] + R.choice([b'|99999p', b'|r /nonexistent/file', b'|nosuchcommand', b"|'zp", b'|/no such text anywhere/p']) + b'\n'
             steps.append(('mod', cmd.decode('utf-8', 'replace')))
             script += cmd
         elif x < 0.82:
@@ -107,6 +110,15 @@ def ex_history(R):
             script += b'redo\n'
         script += b'w! d%d\n' % k
     return lines, steps, script
+
+
+def sparse_script(script, steps):
+    """the same ex history with the dumps after modifying steps left out (a dump is itself a successful command line;
+    undo grouping must not depend on one being there)"""
+    for k, st in enumerate(steps):
+        if st[0] == 'mod':
+            script = script.replace(b'w! d%d\n' % k, b'', 1) if script.count(b'w! d%d\n' % k) == 1 else script
+    return script
 
 
 def vi_history(R):
@@ -127,8 +139,9 @@ def vi_history(R):
                 if cls == 'repeat':
                     ek = '.'    # 'N.' is N commands by design (see C09), hence N undo steps; keep one step per entry here
                 break
-            steps.append(('mod', repr(mk + ek)))
-            keys += (mk + ek).encode() + b'\x1b'
+            steps.append(('mod', repr(mk + ek), None if cls in ('ex', 'repeat') else ek.encode()))
+            # register '.' afterwards (through a pipe that copies it to a file and back) tells whether the keys were taken as ONE command
+            keys += (mk + ek).encode() + b'\x1b' + b':rx . tee dot%d\n' % k
         elif x < 0.82:
             steps.append(('undo', 'u'))
             keys += b'u'
@@ -150,7 +163,23 @@ def run_history(args):
         r, d = common.run_vi(vi, script, files={'f1': gen.buf_bytes(lines), 'f2': b'r1\nr2\n'}, timeout=60)
     init = common.readf(d, 'dinit')
     obs = [common.readf(d, 'd%d' % k) for k in range(len(steps))]
+    dots = [common.readf(d, 'dot%d' % k) for k in range(len(steps))]
     common.rmcase(d)
+    if mode == 'vi':
+        # a step whose keys were not taken as one command (a failed motion lets the rest of the keys run as commands of
+        # their own, '"\\x' is a register prefix plus x, ...) may have logged several entries: the history is cut there
+        pdot, ptext, spill = b'', init, None
+        for k, st in enumerate(steps):
+            if st[0] == 'mod' and st[2] is not None:
+                if not (dots[k] == st[2] or (dots[k] == pdot and obs[k] == ptext)):
+                    steps, obs, spill = steps[:k], obs[:k], k
+                    break
+            if dots[k] is not None:
+                pdot = dots[k]
+            ptext = obs[k]
+    else:
+        spill = None
+    steps = [s[:2] for s in steps]
     wit = {'mode': mode, 'index': idx, 'file': gen.buf_bytes(lines), 'steps': steps, 'input': script}
     rep = common.san_report(r)
     if rep or r.timed_out:
@@ -161,7 +190,19 @@ def run_history(args):
     bad, nchk, cut = check_history(init, steps, obs)
     if bad:
         return ('violation', bad[0], nchk, len(steps), wit)
-    return ('ok', cut, nchk, len(steps), wit)
+    if mode == 'ex' and all(o is not None for o in obs):
+        # second run without the dumps after modifying steps: the texts after every undo/redo must be the same
+        r2, d2 = common.run_ex(vi, sparse_script(script, steps), files={'f1': gen.buf_bytes(lines), 'f2': b'r1\nr2\n'}, timeout=60)
+        obs2 = [common.readf(d2, 'd%d' % k) for k in range(len(steps))]
+        common.rmcase(d2)
+        if not (r2.timed_out or common.san_report(r2)):
+            for k, st in enumerate(steps):
+                if st[0] != 'mod' and obs2[k] is not None and obs2[k] != obs[k]:
+                    return ('violation', ('%s:grouping' % st[0], '%s #%d gives %r when every step is followed by a (successful) dump command and %r when the modifying steps are not; steps so far %s' % (
+                        st[0], k, common.show(obs[k], 120), common.show(obs2[k], 120), [s[1] for s in steps[:k + 1]][-6:])), nchk, len(steps), wit)
+                if st[0] != 'mod':
+                    nchk += 1
+    return ('ok', cut or ('keys not taken as one command at step %d' % spill if spill is not None else None), nchk, len(steps), wit)
 
 
 def run(tier, V):
@@ -210,7 +251,7 @@ def run(tier, V):
                     'non-trivial = an undo or redo whose resulting text was compared.' % (depth, depth + 1, nh, nh)),
            'samples': samples or [{'note': 'no history reached 3 checks'}]}
     assumptions = ['an undo step is the set of splices between two lbuf_modified() calls (what ex_command()/vi() do once per top-level command)',
-                   'a command that leaves the text unchanged may or may not create an undo entry: the history is cut there (counted in binary_history_cuts)',
+                   'a command that leaves the text unchanged may or may not create an undo entry: both hypotheses are carried', 'vi histories: register "." is copied out after every change (:rx . tee file); where it does not hold exactly the keys of the step (failed motion, so the rest of the keys ran as other commands) the step may have logged several entries and the history is cut there (binary_history_cuts)',
                    ':w! dump of a named buffer to another path does not touch undo state']
     return cov, assumptions
 
